@@ -51,7 +51,15 @@ RouteUnsafe ==
 \* C18: chain INPUT of table filter as built from v4 + raw
 IsMerge == "parts" \in DOMAIN T
 MergedChain == IF "filter" \in DOMAIN tables /\ "INPUT" \in DOMAIN tables["filter"] THEN tables["filter"]["INPUT"].rules ELSE <<>>
-MergeOK == Admissible(MergedChain, T.parts.v4, T.parts.v6, T.parts.pre, T.parts.app)
+\* a chain / table that only the raw file defines is taken over as it is, nothing else appears
+RawExtraOK ==
+  /\ "filter" \in DOMAIN tables
+  /\ DOMAIN tables["filter"] = (IF T.parts.xchain THEN {"INPUT", "c9"} ELSE {"INPUT"})
+  /\ (T.parts.xchain => tables["filter"]["c9"].rules = <<[id |-> "tcp8080", act |-> "ACCEPT"]>>)
+  /\ DOMAIN tables = (IF T.parts.xtable THEN {"filter", "mangle"} ELSE {"filter"})
+  /\ (T.parts.xtable => DOMAIN tables["mangle"] = {"PREROUTING"}
+                         /\ tables["mangle"]["PREROUTING"].rules = <<[id |-> "markhex", act |-> "MARK"]>>)
+MergeOK == Admissible(MergedChain, T.parts.v4, T.parts.v6, T.parts.pre, T.parts.app) /\ RawExtraOK
 
 Post(j) == routes = RoutesOf(j) /\ tables = TablesOf(j)
 Chk(ok, tag, detail, kf) == ok \/ PrintT(<<"VERR", LastEv.t, l, tag, detail, kf>>)
@@ -65,7 +73,8 @@ Mon ==
   /\ Chk(~(CompleteEntry /\ I0.safe /\ RouteUnsafe), "C14", "route", "")
   /\ Chk(LastEv.ev \in {"Resume", "Done"} => Post(LastEv.post), "HARNESS", "post state of replica differs", "")
   /\ Chk(LastEv.ev = "Done" /\ IsMerge => MergeOK, "C18",
-         IF IsMerge THEN Why(MergedChain, T.parts.v4, T.parts.v6, T.parts.pre, T.parts.app) ELSE "", "")
+         IF IsMerge THEN (IF RawExtraOK THEN Why(MergedChain, T.parts.v4, T.parts.v6, T.parts.pre, T.parts.app)
+                          ELSE "a chain or table of the raw file is lost, changed or an unknown one appears") ELSE "", "")
   /\ Chk(LastEv.ev = "Done" /\ ~IsMerge => Equivalent, "EQUIV", IF nchg = 0 THEN "unchanged" ELSE "final",
          IF KF_ExtraTable THEN "LinuxExtraTable" ELSE "")
   /\ Chk(LastEv.ev = "Done" => LastEv.n2 = 0, "FIXPOINT", "second compare reports changes",
